@@ -139,6 +139,19 @@ def payloads(rng, tier):
             w[rng.randrange(L)] = c
         yield "valid", {"cfg": cfg, "s": "".join(w), "only_last": rng.random() < 0.3}
         yield "valid", {"cfg": cfg, "s": base, "only_last": rng.random() < 0.3}
+    # WIDE windows (256 nucleotides and more: counts that no longer fit eight bits) over strings of several windows
+    for _ in range({"quick": 60, "thorough": 1000, "search": 40}[tier]):
+        K = rng.choice([255, 256, 257, 300, 427, 512, 600, 1000])
+        lo = rng.choice([0.0, 0.25, 0.4, 0.5])
+        hi = rng.choice([x for x in (0.5, 0.6, 0.75, 1.0) if x >= lo])
+        unit = rng.choice(["ACGT", "GCGA", "AATT", "GGCC", "ACG", "AGCTT", "GC", "AT"])
+        L = rng.choice([K - 1, K, K + 1, 2 * K, 3 * K + 5])
+        body = (unit * (L // len(unit) + 1))[:L]
+        if rng.random() < 0.3 and L > 10:
+            i = rng.randrange(L - 8)
+            body = body[:i] + rng.choice(["GGGGGGGG", "AAAAAAAA", "ACACACAC"]) + body[i + 8:]
+        yield "valid", {"cfg": {"k": K, "run": rng.choice([None, None, 3, 8]), "gc": [lo, hi], "motifs": None}, "s": body,
+                        "only_last": rng.random() < 0.3}
     # the float -> integer threshold step: Coq primitive floats (Thresholds.v, vm_compute) against CPython
     grid = [0.0, 0.1, 0.2, 0.25, 0.3, 0.35, 0.4, 0.45, 0.5, 0.55, 0.6, 0.65, 0.7, 0.75, 0.8, 0.9, 1.0]
     for _ in range({"quick": 120, "thorough": 3000, "search": 40}[tier]):
